@@ -51,6 +51,11 @@ pub struct Case {
     /// A GC_LOCK left behind by a killed collector is in the archive beforehand.
     #[serde(default)]
     pub stale_lock: bool,
+    /// The archive holds no version at all, only garbage blocks (an interrupted first backup
+    /// whose directory a killed delete has already removed): the collector races with what
+    /// becomes the first version.
+    #[serde(default)]
+    pub no_versions: bool,
 }
 
 fn strategy(tier: Tier) -> BoxedStrategy<Case> {
@@ -64,9 +69,9 @@ fn strategy(tier: Tier) -> BoxedStrategy<Case> {
         scen::small_opts(),
         prop::collection::vec(prop::collection::vec((0u8..2, 1u16..15), 2..12), tier.pick(20, 200)),
         prop::bool::weighted(0.25),
-        (prop::bool::weighted(0.35), prop::bool::weighted(0.15)),
+        (prop::bool::weighted(0.35), prop::bool::weighted(0.15), prop::bool::weighted(0.25)),
     )
-        .prop_map(|(g, opts, revenants, garbage_variant, edits, delete_v0, backup_opts, random, five_digit_ids, (break_lock, stale_lock))| Case {
+        .prop_map(|(g, opts, revenants, garbage_variant, edits, delete_v0, backup_opts, random, five_digit_ids, (break_lock, stale_lock, no_versions))| Case {
             initial: g.build(opts),
             opts,
             revenants,
@@ -80,6 +85,7 @@ fn strategy(tier: Tier) -> BoxedStrategy<Case> {
             break_lock,
             // a stale lock without break_lock only makes both sides refuse
             stale_lock: stale_lock && break_lock,
+            no_versions,
         })
         .boxed()
 }
@@ -108,6 +114,18 @@ fn run(case: &Case, cx: &mut Cx) -> CaseResult {
     let mut sources: BTreeMap<u32, Tree> = BTreeMap::new();
     let mut delete_ids: Vec<u32> = vec![];
     match case.garbage_variant {
+        _ if case.no_versions => {
+            // a first backup of the tree with the revenants is killed late; the delete of that
+            // version is killed after it removed the version's directory: blocks, no version
+            let k = 8 + case.garbage_variant.unwrap_or(20) as usize;
+            let ctl = crate::hooks::Ctl::new(&w.arch, crate::hooks::Plan::FreezeAtMutating { k, torn: false });
+            let hook: ops::Hook = Some(ctl as std::sync::Arc<dyn conserve::transport::verif::Interceptor>);
+            let _ = ops::backup(&w.arch, &hook, &w.src, Opts { hunk: 100_000, ..case.opts }, &[]);
+            for id in format::scan(&w.arch).bands.keys() {
+                std::fs::remove_dir_all(w.arch.join(format::band_dirname(*id))).unwrap();
+            }
+            tree::rematerialise(&t_with, &t_without, &w.src);
+        }
         None => {
             let b = ops::backup(&w.arch, &None, &w.src, case.opts, &[]);
             ensure!(!ops::backup_reported_error(&b), "C06/setup", "{}", b.describe());
@@ -164,7 +182,7 @@ fn run(case: &Case, cx: &mut Cx) -> CaseResult {
     tree::rematerialise(&t_without, &t_new, &w.src);
     w.tree = t_new.clone();
 
-    if case.five_digit_ids {
+    if case.five_digit_ids && !case.no_versions {
         // renumber: the newest existing version becomes b9999
         let ids: Vec<u32> = format::scan(&w.arch).bands.keys().copied().collect();
         let top = *ids.last().unwrap();
@@ -257,6 +275,40 @@ fn run(case: &Case, cx: &mut Cx) -> CaseResult {
             }
         }
         let g_starts = scen::thin(&crit[0], cx.tier.pick(5, 10));
+        // every look the backup takes at the archive before it stores its first block (lock
+        // tests, version list, heads and tails, block listing), whatever operation it is made
+        // with: answered "not found" or with an error while the collector is paused
+        let first_store = b_trace.iter().position(|l| l.key.verb == V::Write && l.key.path.starts_with("d/")).unwrap_or(b_trace.len());
+        let looks: Vec<u16> = b_trace[..first_store].iter().enumerate().filter(|(_, l)| !l.key.verb.mutating()).map(|(i, _)| i as u16).collect();
+        for nth in scen::thin(&looks, cx.tier.pick(10, 30)) {
+            for kind in [EK::NotFound, EK::Other] {
+                for p in scen::thin(&g_starts, cx.tier.pick(4, 10)) {
+                    runs.push(Inner {
+                        sch: Schedule(vec![(0, p), (1, u16::MAX)]),
+                        faults: vec![RaceFault { actor: 1, verb: None, prefix: String::new(), nth, kind, freeze_torn: false }],
+                        flip_break_lock: false,
+                    });
+                }
+            }
+        }
+        // ... and the same when the backup had already begun (it is past its first lock test)
+        // before the collector ran up to a critical point: backup p1 operations, collector up
+        // to p2, backup to its end with one of its later looks failing, collector to its end
+        let b_early: Vec<u16> = scen::thin(&crit[1], cx.tier.pick(3, 6));
+        for p1 in &b_early {
+            let later: Vec<u16> = looks.iter().copied().filter(|n| *n >= *p1).collect();
+            for nth in scen::thin(&later, cx.tier.pick(8, 20)) {
+                for kind in [EK::NotFound, EK::Other] {
+                    for p2 in scen::thin(&g_starts, cx.tier.pick(4, 10)) {
+                        runs.push(Inner {
+                            sch: Schedule(vec![(1, *p1), (0, p2), (1, u16::MAX), (0, u16::MAX)]),
+                            faults: vec![RaceFault { actor: 1, verb: None, prefix: String::new(), nth, kind, freeze_torn: false }],
+                            flip_break_lock: false,
+                        });
+                    }
+                }
+            }
+        }
         for (verb, prefix, nth) in [(V::Metadata, "GC_LOCK", 0u16), (V::Metadata, "GC_LOCK", 1), (V::ListDir, "", 0), (V::ListDir, "", 1)] {
             for kind in [EK::Other, EK::PermissionDenied] {
                 for p in &g_starts {
@@ -382,6 +434,7 @@ fn run(case: &Case, cx: &mut Cx) -> CaseResult {
     cx.label_if(case.garbage_variant.is_some(), "garbage-from-interrupted-backup");
     cx.label_if(!delete_ids.is_empty(), "deletes-a-version");
     cx.label_if(case.five_digit_ids, "ids-cross-b9999");
+    cx.label_if(case.no_versions, "no-version-only-garbage");
     Ok(())
 }
 
